@@ -94,6 +94,14 @@ def gen(seed, run, tier='quick'):
                         # a converter that retires: when consulted for this
                         # pair it unregisters itself and declines
                         table[f"{a}{b}"] = ['expire']
+                    elif x < 0.72 and kind in ('stub', 'unhashable'):
+                        # a converter that takes OTHERS out of service when
+                        # it is consulted for this pair (one of the others,
+                        # both, or one of them and itself) and declines
+                        others = [j for j in range(n_g) if j != k]
+                        table[f"{a}{b}"] = ['evict', rng.choice(
+                            [[others[0]], [others[1]], others,
+                             [others[0], k], [k, others[1]]])]
         gconvs.append({'kind': kind, 'table': table})
     if rng.random() < 0.3:
         # twins among the generic converters, too
@@ -106,7 +114,7 @@ def gen(seed, run, tier='quick'):
         # is registered then) and applies its own factor to that
         for g in gconvs:
             g['table'] = {k_: v_ for k_, v_ in g['table'].items()
-                          if v_[0] != 'expire'}
+                          if v_[0] not in ('expire', 'evict')}
         j = rng.choice(stubs_)
         a_, b_ = rng.sample(range(3), 2)
         gconvs[j] = dict(gconvs[j], table=dict(
@@ -285,6 +293,9 @@ def gen(seed, run, tier='quick'):
     cfg = {'codes': codes, 'mconvs': mconvs, 'gconvs': gconvs,
            'amount': f"{rng.randrange(100000, 999999)}/100",
            'gamount': str(rng.randrange(3, 500))}
+    # the other documented way to convert: Quantity('<amount> <symbol>',
+    # unit) - for no pair, for some pairs, for all pairs of this run
+    cfg['string_form'] = rng.choice([0, 1, 1, 2])
     return {'cfg': cfg, 'ops': toks}
 
 
@@ -471,6 +482,13 @@ def execute(h):
                 except ValueError:
                     pass
                 return None
+            if e[0] == 'evict':
+                for j in e[1]:
+                    try:
+                        G.remove_converter(gref(j))
+                    except ValueError:
+                        pass
+                return None
             if e[0] == 'amtf':
                 return float(qty.amount) * float(e[1])
             if e[0] == 'via':
@@ -596,6 +614,8 @@ def execute(h):
             spec = gc.stub.table
         if spec is not None and spec.get(f"{a}{b}", [None])[0] == 'expire':
             return ('expire',)      # not called here: it would unregister
+        if spec is not None and spec.get(f"{a}{b}", [None])[0] == 'evict':
+            return ('evict', list(spec[f"{a}{b}"][1]))
         if spec is not None and spec.get(f"{a}{b}", [None])[0] == 'via':
             # depends on what is registered when it is asked
             return ('via', int(spec[f"{a}{b}"][1]), spec[f"{a}{b}"][2])
@@ -671,12 +691,33 @@ def execute(h):
         return e[:2]
 
     expired = []
+    evicted = []
+
+    def string_form(p):
+        sf = cfg.get('string_form', 0)
+        return sf == 2 or (sf == 1 and (p[0] + 2 * p[1] + p[2]) % 3 == 0)
 
     def expected_generic(p, depth=0):
         """first converter, most recent first, that returns an amount."""
         skipped = 0
-        for gi in reversed(glist):
+        gone = set()
+        for gi in reversed(list(glist)):
+            if gi in gone:
+                # taken out of service by a converter consulted before it
+                continue
             a = ganswers[gi][p]
+            if a[0] == 'evict':
+                # consulted, unregisters others (and itself, maybe),
+                # declines; the conversion goes on with the next older
+                # converter that is still registered
+                for j in a[1]:
+                    if j in glist and j not in gone:
+                        gone.add(j)
+                        expired.append(j)
+                        if j != gi:
+                            evicted.append(j)
+                skipped += 1
+                continue
             if a[0] == 'expire':
                 # consulted, unregisters itself, declines; the conversion
                 # goes on with the next older converter
@@ -800,6 +841,15 @@ def execute(h):
                 violate('money_convert', 'value', step, pair=list(p),
                         expected=list(e), observed=list(o),
                         model_stack=list(mstack), answered_by=who)
+            if string_form(p):
+                o2 = observe(lambda: _num(
+                    Money(str(money_sets[k][a]), curs[b]).amount))
+                vec.append(o2)
+                bump(probes, 'converted_by_string_and_unit')
+                if o2 != e:
+                    violate('money_convert', 'string_form', step,
+                            pair=list(p), expected=list(e),
+                            observed=list(o2), model_stack=list(mstack))
         # --- +, <, == across currencies (first pair only)
         a, b = pairs[0][:2]
         e = expected_money((b, a, 0))   # other converted to self.unit
@@ -890,11 +940,14 @@ def execute(h):
                 gq_sets[k][a].convert(gunits[b]).amount))
             vec.append(o)
             del expired[:]
+            del evicted[:]
             e, skipped = expected_generic(p)
             for gi in expired:
                 if gi in glist:
                     glist.remove(gi)
-                    bump(faults, 'converter_unregistered_itself_mid_lookup')
+                    bump(faults, 'converter_unregistered_another_mid_lookup'
+                         if gi in evicted else
+                         'converter_unregistered_itself_mid_lookup')
             if e[0] == 'unjudged':
                 bump(probes, 'stub_raised_when_consulted')
                 continue
@@ -928,6 +981,14 @@ def execute(h):
                 violate('generic_convert', 'second_type', step, pair=list(p),
                         expected=list(e), observed=list(o),
                         model_list=list(hlist))
+            if e[0] != 'unjudged' and string_form(p):
+                o2 = observe(lambda: _num(
+                    H(str(hq_sets[k][a]), hunits[b]).amount))
+                vec.append(o2)
+                if o2 != e:
+                    violate('generic_convert', 'string_form', step,
+                            pair=list(p), expected=list(e),
+                            observed=list(o2), model_list=list(hlist))
         # --- same registrations => same behaviour (restoration); a sweep
         # during which a converter retired spans two states and is skipped
         key = (tuple(mstack), tuple(glist), tuple(hlist))
